@@ -109,18 +109,85 @@ pub fn run(rep: &mut Report) {
             }
         }
     }
+    // ---- order independence: the position of a property in the block carries no meaning. Every ordered
+    // pair of distinct kinds the specification allows in a location is accepted by builder and parser
+    // (Authentication Data next to Authentication Method in both orders; any other pair containing
+    // Authentication Data gets the Method appended behind it), and a disallowed kind is refused whether it
+    // stands before or behind an allowed one.
+    let mut pair_cells = 0u64;
+    for loc in rc::ALL_LOCS {
+        let kinds: Vec<(u8, &str)> = rc::PROP_TABLE.iter().map(|(id, name, _)| (*id, *name)).collect();
+        let user = Prop { id: 0x26, val: PVal::Pair(b"k".to_vec(), b"v".to_vec()) };
+        for (id1, n1) in &kinds {
+            for (id2, n2) in &kinds {
+                if id1 == id2 {
+                    continue;
+                }
+                let a1 = rc::prop_allowed(*id1, loc);
+                let a2 = rc::prop_allowed(*id2, loc);
+                // both allowed: any order; exactly one disallowed: only together with User Property
+                if !(a1 && a2) && !((*id1 == 0x26 && a1) || (*id2 == 0x26 && a2)) {
+                    continue;
+                }
+                if !a1 && !a2 {
+                    continue;
+                }
+                pair_cells += 1;
+                let p1 = Prop { id: *id1, val: values(*id1)[0].clone() };
+                let p2 = Prop { id: *id2, val: values(*id2)[0].clone() };
+                let mut ps = vec![p1, p2];
+                if (*id1 == 0x16 || *id2 == 0x16) && *id1 != 0x15 && *id2 != 0x15 && rc::prop_allowed(0x15, loc) {
+                    ps.push(Prop { id: 0x15, val: PVal::Str(b"m".to_vec()) });
+                }
+                let _ = &user;
+                let spec = a1 && a2;
+                let ap = base(loc, ps);
+                let label = format!("{n1} then {n2} in {loc:?}");
+                let r = guarded(|| {
+                    let b = matches!(bridge::build::<u16>(&ap), Built::Ok(_));
+                    let wire = rc::encode(&ap, 2);
+                    let parsed = match rc::frame_one(&wire) {
+                        rc::Framed::Frame { ty, flags, body, .. } => bridge::parse_body::<u16>(Ver::V5, ty, flags, &body).map(|r| r.is_ok()).unwrap_or(false),
+                        _ => false,
+                    };
+                    (b, parsed)
+                });
+                let mk = |rule: &str, detail: String| Violation {
+                    rule: rule.into(),
+                    sig: format!("{rule}|{n1}+{n2}|{loc:?}"),
+                    detail: format!("cell [{label}]: {detail}"),
+                    config: "c18 placement table (ordered pairs)".into(),
+                    history: vec![json!(label), json!(crate::util::hex(&rc::encode(&ap, 2)))],
+                };
+                match r {
+                    Err(m) => viols.push(mk("c18.panic", format!("panic: {m}"))),
+                    Ok((b, parsed)) => {
+                        let why = if spec { "the specification allows both properties here, in any order" } else { "one of the two properties is not allowed here" };
+                        if b != spec {
+                            viols.push(mk("c18.builder-order", format!("the builder {} the pair but {why}", if b { "accepts" } else { "rejects" })));
+                        }
+                        if parsed != spec {
+                            viols.push(mk("c18.parser-order", format!("the parser {} the pair but {why}", if parsed { "accepts" } else { "rejects" })));
+                        }
+                    }
+                }
+            }
+        }
+    }
+    rep.count("c18.ordered-pairs", pair_cells);
+    rep.floor("c18.ordered-pairs", 1000);
     for v in viols {
         rep.violation(v);
     }
     for s in samples {
         rep.sample(s);
     }
-    rep.set_cov("evaluations", json!(cells * 2));
-    rep.set_cov("distinct_nontrivial", json!(cells));
+    rep.set_cov("evaluations", json!((cells + pair_cells) * 2));
+    rep.set_cov("distinct_nontrivial", json!(cells + pair_cells));
     rep.set_cov("cells_spec_accept", json!(accept_cells));
     rep.set_cov("cells_spec_reject", json!(reject_cells));
     rep.set_cov("exhaustive", json!(true));
-    rep.set_cov("rule", json!("27 property kinds x the 14 property-carrying locations of MQTT v5.0 x occurrences {1,2} x {typical value, every boundary the specification singles out}; each cell evaluated on the builder path and on the parser path (reference-encoded packet); distinct_nontrivial = cells"));
+    rep.set_cov("rule", json!("27 property kinds x the 14 property-carrying locations of MQTT v5.0 x occurrences {1,2} x {typical value, every boundary the specification singles out}; each cell evaluated on the builder path and on the parser path (reference-encoded packet); plus every ordered pair of distinct allowed kinds per location (order independence) and every disallowed kind before / behind a User Property; distinct_nontrivial = cells + ordered pairs"));
     rep.count("c18.cells-accept", accept_cells);
     rep.count("c18.cells-reject", reject_cells);
     rep.floor("c18.cells-accept", 100);
